@@ -218,6 +218,8 @@ class ActorInterp(Interp):
     def attr_of(self, base: Any, attr: str, node: ast.AST) -> Any:
         if isinstance(base, tuple) and base and base[0] == "global":
             return ("global", f"{base[1]}.{attr}")
+        if isinstance(base, (Sym, Lin)):
+            return ("power", base, attr)  # a method of a power value (isclose, ...)
         return super().attr_of(base, attr, node)
 
     def fork(self, key: Any, label: str, node: ast.AST | None) -> bool:
@@ -340,6 +342,8 @@ class ActorInterp(Interp):
             return None
         if tag == "actor":
             return self.actor_call(fn[1], pos, kw, node)
+        if tag == "power":
+            return power_method(self, fn[1], fn[2], pos, kw, node)
         return super().apply(fn, pos, kw, node)
 
     def group_call(self, meth: str, group: str, pos: list[Any], kw: dict[str, Any],
@@ -405,6 +409,9 @@ class ActorInterp(Interp):
             res = pure_builtin(self, dotted, pos, kw, node)
             if res is not _NOT_BUILTIN:
                 return res
+            res = power_builtin(self, dotted, pos, kw, node)
+            if res is not _NOT_BUILTIN:
+                return res
             if last in ("Request", "Bounds", "SystemBounds"):
                 target = self.prog.resolve_name(self.cls.module, dotted)
                 if isinstance(target, ClassInfo):
@@ -433,7 +440,17 @@ class ActorInterp(Interp):
             for k, c in lb.items():
                 out[k] = out.get(k, 0) + sign * c
             return Lin(out)
-        raise AnalysisError("operator on power values not modelled (only `+`/`-` of powers)")
+        if isinstance(op, ast.Mult) and (_is_int(a) and lb is not None and b is not None
+                                         or _is_int(b) and la is not None and a is not None):
+            factor: int = a if _is_int(a) else b
+            scaled: dict[str, int] = (lb if _is_int(a) else la) or {}
+            return Lin({n: c * factor for n, c in scaled.items()})
+        if isinstance(op, (ast.Mult, ast.Div, ast.FloorDiv, ast.Mod, ast.Pow)) and (
+                isinstance(a, (Sym, Lin)) or isinstance(b, (Sym, Lin))) and all(
+                isinstance(x, (Sym, Lin, int, float)) and not isinstance(x, bool) for x in (a, b)):
+            # a scaled / divided power: some other value, equal to no target, sum or bound of the domain
+            return Sym(f"({a!r} {_OP_TEXT.get(type(op), '?')} {b!r})")
+        raise AnalysisError("operator on power values not modelled (only `+`/`-` of powers, scaling)")
 
     def unaryop(self, op: ast.unaryop, v: Any, node: ast.AST) -> Any:
         lv = lin_of(v)
@@ -471,6 +488,66 @@ class ActorInterp(Interp):
 
 _MISSING = Sym("<missing>")
 _NOT_BUILTIN = Sym("<not a modelled builtin>")
+
+
+_OP_TEXT = {ast.Mult: "*", ast.Div: "/", ast.FloorDiv: "//", ast.Mod: "%", ast.Pow: "**"}
+
+
+def _is_int(v: Any) -> bool:
+    return isinstance(v, int) and not isinstance(v, bool)
+
+
+def power_method(interp: Any, base: Any, attr: str, pos: list[Any], kw: dict[str, Any], node: ast.AST) -> Any:
+    """A method called on a power value.  `isclose` is a fact of the environment (forked once per run, keyed by
+    the difference of the two values); any other method yields some other value of which nothing is known - it
+    is identical to no target, sum or bound, so a rule that demands "this very value" fails on it."""
+    if attr == "isclose" and pos and (pos[0] is None or isinstance(pos[0], (Sym, Lin))):
+        if pos[0] is None:
+            raise _Raise("AttributeError", node)
+        d = _diff_key(base, pos[0])
+        if d is None:
+            return True
+        key, _sign = d
+        return interp.fork(("isclose", key), f"{base!r}.isclose({pos[0]!r})", node)
+    args = ", ".join([repr(x) for x in pos] + [f"{k}={v!r}" for k, v in kw.items()])
+    return Sym(f"{base!r}.{attr}({args})")
+
+
+def power_builtin(interp: Any, name: str, pos: list[Any], kw: dict[str, Any], node: ast.AST) -> Any:
+    """`Power.zero()` / `Power.from_watts(...)` (a power value of its own), `min` / `max` of power values (one
+    of the arguments, selected by forked order facts), `abs` (some other value)."""
+    head = name.split(".", 1)[0]
+    if head == "Power" and "." in name:
+        args = ", ".join([repr(x) for x in pos] + [f"{k}={v!r}" for k, v in kw.items()])
+        return Sym(f"{name}({args})")
+    if name in ("min", "max") and len(pos) >= 2 and not kw and all(
+            x is None or isinstance(x, (Sym, Lin)) for x in pos):
+        if any(x is None for x in pos):
+            raise _Raise("TypeError", node)
+        best = pos[0]
+        for x in pos[1:]:
+            # min: x replaces best if x < best; max: if x > best
+            if compare_opaque(interp, ast.Lt() if name == "min" else ast.Gt(), x, best, node):
+                best = x
+        return best
+    if name == "abs" and len(pos) == 1 and not kw and isinstance(pos[0], (Sym, Lin)):
+        return Sym(f"abs({pos[0]!r})")
+    return _NOT_BUILTIN
+
+
+def _diff_key(a: Any, b: Any) -> tuple[tuple[tuple[str, int], ...], int] | None:
+    """Canonical form of `a - b` for two power values: (sorted coefficients with a positive leading one,
+    the sign that was factored out); None if the difference is identically zero."""
+    la, lb = lin_of(a), lin_of(b)
+    assert la is not None and lb is not None
+    d = dict(la)
+    for k, c in lb.items():
+        d[k] = d.get(k, 0) - c
+    items = sorted((k, c) for k, c in d.items() if c != 0)
+    if not items:
+        return None
+    sign = 1 if items[0][1] > 0 else -1
+    return tuple((k, c * sign) for k, c in items), sign
 
 
 def eval_slice(interp: Interp, e: ast.Subscript) -> Any:
@@ -520,6 +597,22 @@ def compare_opaque(interp: Any, op: ast.cmpop, a: Any, b: Any, node: ast.AST) ->
     if not (isinstance(a, Sym) and isinstance(b, Sym)):
         if eq and a is b:
             return isinstance(op, ast.Eq)
+        if isinstance(a, (Sym, Lin)) and isinstance(b, (Sym, Lin)):
+            # linear combinations of powers (`hi - x < x - lo`): the sign of the difference is a fact of the
+            # environment, forked once per run for the canonical form of `a - b`
+            d = _diff_key(a, b)
+            if d is None:
+                return isinstance(op, (ast.Eq, ast.LtE, ast.GtE))
+            key, sign = d
+            form = Lin(dict(key))
+            zero = interp.fork(("eq0", key), f"{form!r} == 0", node)
+            if eq:
+                return zero if isinstance(op, ast.Eq) else not zero
+            if zero:
+                return isinstance(op, (ast.LtE, ast.GtE))
+            neg = interp.fork(("lt0", key), f"{form!r} < 0", node)
+            a_lt_b = neg if sign == 1 else not neg
+            return a_lt_b if isinstance(op, (ast.Lt, ast.LtE)) else not a_lt_b
         raise AnalysisError(f"comparison of {a!r} and {b!r} not modelled "
                             f"(line {getattr(node, 'lineno', '?')})")
     if a is b:
@@ -925,6 +1018,229 @@ def is_empty_mapping(e: ast.AST | None) -> bool:
     return isinstance(e, ast.Call) and ast.unparse(e.func) == "dict" and not e.args and not e.keywords
 
 
+# ------------------------------------------------------------------------------ who names which group
+FLAG_ATTR = "set_operating_point"     # message field: operating-point group (true) or regular group (false)
+GROUP_KEY = ("component_ids", FLAG_ATTR)  # the fields of a message that name the group it is about
+
+
+def group_message_classes(prog: Program) -> tuple[ClassInfo, list[ClassInfo]]:
+    """The message classes of the power-managing package that name a group (they carry the operating-point
+    flag): (the proposal class - the type of the proposal parameter of the algorithm's calculate_target_power -,
+    the other ones = report subscriptions).  The report itself carries no flag."""
+    algo = prog.cls(ALGO)
+    calc = prog.resolve_method(algo, "calculate_target_power")
+    carriers = [c for c in algo.module.classes.values() if FLAG_ATTR in dataclass_fields(c)]
+    ann = ""
+    if calc is not None and len(calc.node.args.args) > 2 and calc.node.args.args[2].annotation is not None:
+        ann = ast.unparse(calc.node.args.args[2].annotation)
+    words = set(_words(ann))
+    proposal = [c for c in carriers if c.name in words]
+    subs = [c for c in carriers if c not in proposal]
+    if len(proposal) != 1 or not subs:
+        raise AnalysisError(f"{algo.module.name}: the proposal / subscription message classes carrying "
+                            f"`{FLAG_ATTR}` were not found ({[c.name for c in carriers]})")
+    return proposal[0], subs
+
+
+def _words(text: str) -> list[str]:
+    out, cur = [], ""
+    for ch in text:
+        if ch.isalnum() or ch == "_":
+            cur += ch
+        else:
+            if cur:
+                out.append(cur)
+            cur = ""
+    if cur:
+        out.append(cur)
+    return out
+
+
+def construction_sites(prog: Program, classes: list[ClassInfo]) -> list[tuple[FuncInfo, ast.Call, ClassInfo]]:
+    """Every call in the package that constructs one of `classes` (callee resolved through the imports of the
+    calling module, so `_power_managing.Proposal(...)`, `Proposal(...)` and an alias all count)."""
+    from ..engine.resolver import dotted as dotted_name
+
+    names = {c.name for c in classes}
+    out: list[tuple[FuncInfo, ast.Call, ClassInfo]] = []
+    mentions = {m.name for m in prog.modules.values() if any(n in m.source for n in names)}
+    for fi in prog.all_functions():
+        if fi.module.name not in mentions:
+            continue  # an alias of the class is created by an import that spells its name
+        aliases = {k for k, v in fi.module.imports.items() if v.rsplit(".", 1)[-1] in names}
+        for n in ast.walk(fi.node):
+            if not isinstance(n, ast.Call):
+                continue
+            d = dotted_name(n.func)
+            if d is None or not (d.rsplit(".", 1)[-1] in names or d in aliases):
+                continue
+            target = prog.resolve_name(fi.module, d)
+            for c in classes:
+                if target is c:
+                    out.append((fi, n, c))
+    return out
+
+
+def message_args(call: ast.Call, cls: ClassInfo, where: str) -> dict[str, ast.AST]:
+    if any(k.arg is None for k in call.keywords) or any(isinstance(a, ast.Starred) for a in call.args):
+        raise AnalysisError(f"{where}: {cls.name}(...) built with * / ** arguments: its fields cannot be read")
+    fields = dataclass_fields(cls)
+    out: dict[str, ast.AST] = dict(zip(fields, call.args))
+    for k in call.keywords:
+        if k.arg is not None:
+            out[k.arg] = k.value
+    return out
+
+
+def canonical_source(prog: Program, fi: FuncInfo, expr: ast.AST, depth: int = 0) -> str:
+    """Where a value comes from, as text that is equal for equal sources: local names assigned once are
+    replaced by what they were assigned (transitively); a parameter of a private helper is replaced by the
+    argument its callers in the same class pass (when they all pass the same)."""
+    import copy
+
+    if depth > 4:
+        return ast.unparse(expr)
+    params = set(fi.params)
+    assigned: dict[str, list[ast.AST | None]] = {}
+    for n in walk_no_nested(fi.node):
+        tgt: ast.AST | None = None
+        val: ast.AST | None = None
+        if isinstance(n, ast.Assign):
+            val = n.value
+            for t in n.targets:
+                for x in ast.walk(t):
+                    if isinstance(x, ast.Name):
+                        assigned.setdefault(x.id, []).append(val if t is x else None)
+            continue
+        if isinstance(n, (ast.AnnAssign, ast.NamedExpr)):
+            tgt, val = n.target, n.value
+        elif isinstance(n, (ast.AugAssign,)):
+            tgt, val = n.target, None
+        elif isinstance(n, (ast.For, ast.AsyncFor, ast.comprehension)):
+            tgt, val = n.target, None
+        elif isinstance(n, (ast.With, ast.AsyncWith)):
+            for item in n.items:
+                if item.optional_vars is not None:
+                    for x in ast.walk(item.optional_vars):
+                        if isinstance(x, ast.Name):
+                            assigned.setdefault(x.id, []).append(None)
+            continue
+        if tgt is not None:
+            for x in ast.walk(tgt):
+                if isinstance(x, ast.Name):
+                    assigned.setdefault(x.id, []).append(val if tgt is x else None)
+
+    def param_source(name: str) -> str | None:
+        if fi.cls is None:
+            return None
+        idx = fi.params.index(name)
+        seen: set[str] = set()
+        for m in fi.cls.methods.values():
+            for c in ast.walk(m.node):
+                if isinstance(c, ast.Call) and isinstance(c.func, ast.Attribute) and c.func.attr == fi.name \
+                        and isinstance(c.func.value, ast.Name) and c.func.value.id in ("self", "cls"):
+                    arg: ast.AST | None = None
+                    pos = idx - 1  # without self
+                    if 0 <= pos < len(c.args):
+                        arg = c.args[pos]
+                    for k in c.keywords:
+                        if k.arg == name:
+                            arg = k.value
+                    if arg is None:
+                        return None
+                    seen.add(canonical_source(prog, m, arg, depth + 1))
+        return seen.pop() if len(seen) == 1 else None
+
+    class Sub(ast.NodeTransformer):
+        def visit_Name(self, node: ast.Name) -> ast.AST:  # noqa: N802
+            if not isinstance(node.ctx, ast.Load):
+                return node
+            vals = assigned.get(node.id, [])
+            if node.id not in params and len(vals) == 1 and vals[0] is not None:
+                return _as_expr(canonical_source(prog, fi, vals[0], depth + 1))
+            if node.id in params and not vals and node.id not in ("self", "cls"):
+                src = param_source(node.id)
+                if src is not None:
+                    return _as_expr(src)
+                return ast.Name(id=f"<parameter {node.id} of {fi.name}>", ctx=ast.Load())
+            return node
+
+    return ast.unparse(Sub().visit(copy.deepcopy(expr)))
+
+
+def _as_expr(text: str) -> ast.AST:
+    try:
+        return ast.parse(text, mode="eval").body
+    except SyntaxError:
+        return ast.Name(id=text, ctx=ast.Load())
+
+
+def flag_polarity(test: ast.AST, flag_names: set[str]) -> int:
+    """+1 if the test is true exactly when the message's operating-point flag is, -1 for its negation, 0 if the
+    test is not about the flag (`x.set_operating_point`, a local bound to it, `not ...`, `... is True/False`,
+    `... == True/False`)."""
+    if isinstance(test, ast.UnaryOp) and isinstance(test.op, ast.Not):
+        return -flag_polarity(test.operand, flag_names)
+    if isinstance(test, ast.Attribute) and test.attr == FLAG_ATTR:
+        return 1
+    if isinstance(test, ast.Name) and test.id in flag_names:
+        return 1
+    if isinstance(test, ast.Compare) and len(test.ops) == 1 and isinstance(test.comparators[0], ast.Constant) \
+            and isinstance(test.comparators[0].value, bool) and isinstance(test.ops[0], (ast.Is, ast.IsNot, ast.Eq,
+                                                                                          ast.NotEq)):
+        inner = flag_polarity(test.left, flag_names)
+        sign = 1 if test.comparators[0].value else -1
+        if isinstance(test.ops[0], (ast.IsNot, ast.NotEq)):
+            sign = -sign
+        return inner * sign
+    return 0
+
+
+def flag_locals(fn: ast.AST) -> set[str]:
+    """Local names bound (only) to a read of the operating-point flag of a message."""
+    bound: dict[str, list[bool]] = {}
+    for n in walk_no_nested(fn):
+        if isinstance(n, ast.Assign) and len(n.targets) == 1 and isinstance(n.targets[0], ast.Name):
+            bound.setdefault(n.targets[0].id, []).append(
+                isinstance(n.value, ast.Attribute) and n.value.attr == FLAG_ATTR)
+        elif isinstance(n, (ast.AnnAssign, ast.NamedExpr)) and isinstance(n.target, ast.Name) and n.value is not None:
+            bound.setdefault(n.target.id, []).append(
+                isinstance(n.value, ast.Attribute) and n.value.attr == FLAG_ATTR)
+    return {k for k, v in bound.items() if v and all(v)}
+
+
+def table_choices(fn: ast.AST) -> list[dict[str, Any]]:
+    """The conditionals of a function that choose between the subscription tables by the operating-point flag:
+    {node, when_op: tables named where the flag is true, when_reg: tables named where it is false} (tables as
+    group names "op" / "reg"), plus the table references of the function that no such conditional covers."""
+    names = flag_locals(fn)
+    covered: set[int] = set()
+    out: list[dict[str, Any]] = []
+
+    def tables(nodes: Iterable[ast.AST]) -> list[ast.Attribute]:
+        return [x for n in nodes for x in ast.walk(n) if isinstance(x, ast.Attribute) and x.attr in SUBS_ATTRS]
+
+    for n in walk_no_nested(fn):
+        if not isinstance(n, (ast.If, ast.IfExp)):
+            continue
+        pol = flag_polarity(n.test, names)
+        if pol == 0:
+            continue
+        body: list[ast.AST] = list(n.body) if isinstance(n.body, list) else [n.body]
+        orelse: list[ast.AST] = list(n.orelse) if isinstance(n.orelse, list) else [n.orelse]
+        t_true, t_false = tables(body), tables(orelse)
+        if not t_true and not t_false:
+            continue
+        for x in t_true + t_false:
+            covered.add(id(x))
+        if pol < 0:
+            t_true, t_false = t_false, t_true
+        out.append({"node": n, "when_op": t_true, "when_reg": t_false})
+    loose = [x for x in walk_no_nested(fn) if isinstance(x, ast.Attribute) and x.attr in SUBS_ATTRS
+             and id(x) not in covered]
+    return out + [{"node": x, "loose": True} for x in loose]
+
+
 # ------------------------------------------------------------------------------ reachability
 def reachable_methods(prog: Program, cls: ClassInfo, root: FuncInfo, stop: Iterable[str] = ()) -> list[FuncInfo]:
     """`root` and the same-class methods it (transitively) calls through `self.<m>(...)`."""
@@ -1260,8 +1576,73 @@ def structural_controls(prog: Program, actor: str, module: str,
         last = dp.node.body[-1]
         built["stored target reset when proposals expire"] = _splice(
             mmod.source, last, f"{_seg(mmod.source, last)}\n{' ' * last.col_offset}self.{STORE_ATTR}.clear()")
+    # 10. the power put into the request is adjusted after the sum was formed (pushed out of the exclusion zone)
+    su = method("_send_updated_target_power")
+    for fi in (reachable_methods(prog, cls, su, stop - {su.name}) if su is not None else []):
+        if fi.module is not mod or "request power adjusted after the sum" in built:
+            continue
+        for n in walk_no_nested(fi.node):
+            if isinstance(n, ast.Call) and ast.unparse(n.func).split(".")[-1] == "Request":
+                kws = {k.arg: k.value for k in n.keywords}
+                if "power" in kws and "component_ids" in kws:
+                    v, i = _seg(src, kws["power"]), _seg(src, kws["component_ids"])
+                    excl = f"self.{CACHE_ATTR}[{i}].exclusion_bounds"
+                    built["request power adjusted after the sum"] = _splice(
+                        src, kws["power"], f"({v} if {excl} is None else max({v}, {excl}.upper))")
+                    break
+    # 11. the report hides the stored target while the group's bucket holds no proposal
+    if gs is not None and len(gs.params) > 1:
+        for n in walk_no_nested(gs.node):
+            if isinstance(n, ast.Call) and ast.unparse(n.func).split(".")[-1] == "_Report":
+                kw = next((k for k in n.keywords if k.arg == "target_power"), None)
+                if kw is not None:
+                    built["report hides the stored target of an emptied bucket"] = _splice(
+                        mmod.source, kw.value, f"({_seg(mmod.source, kw.value)} if self.{BUCKETS_ATTR}.get("
+                                               f"{gs.params[1]}) else None)")
+                    break
+    # 12./13. a client class builds its report subscription without the operating-point flag / with a flag that
+    #         does not come from where the flag of its proposals comes from
+    built_module: dict[str, str] = {}
+    try:
+        proposal_cls, sub_classes = group_message_classes(prog)
+        sites = construction_sites(prog, [proposal_cls, *sub_classes])
+    except AnalysisError:
+        sites = []
+    with_props = {fi.cls.qual for fi, _c, mc in sites if fi.cls is not None and mc is proposal_cls}
+    for fi, call, mc in sites:
+        if mc is proposal_cls or fi.cls is None or fi.cls.qual not in with_props:
+            continue
+        kw = next((k for k in call.keywords if k.arg == FLAG_ATTR), None)
+        if kw is None:
+            continue
+        import copy
+
+        bare = copy.deepcopy(call)
+        bare.keywords = [k for k in bare.keywords if k.arg != FLAG_ATTR]
+        msrc = fi.module.source
+        sources[fi.module.name] = msrc
+        built["subscription built without the operating-point flag"] = _splice(msrc, call, ast.unparse(bare))
+        built["subscription flag not from the source of the proposals' flag"] = _splice(msrc, kw.value, "False")
+        built_module["subscription built without the operating-point flag"] = fi.module.name
+        built_module["subscription flag not from the source of the proposals' flag"] = fi.module.name
+        break
+    # 14. the event loop files operating-point subscriptions in the regular table and vice versa
+    for fi in (reachable_methods(prog, cls, rn, stop) if rn is not None else []):
+        if fi.module is not mod or "subscription tables exchanged" in built:
+            continue
+        for ch in table_choices(fi.node):
+            if ch.get("loose") or not ch["when_op"] or not ch["when_reg"]:
+                continue
+            a, b = ch["when_op"][0], ch["when_reg"][0]
+            if a.attr == b.attr:
+                continue
+            t1, t2 = sorted((a, b), key=lambda x: (x.lineno, x.col_offset))
+            text = _splice(src, t2, _seg(src, t2).replace(t2.attr, t1.attr))
+            built["subscription tables exchanged"] = _splice(text, t1, _seg(src, t1).replace(t1.attr, t2.attr))
+            break
     out = []
     for name, module_, old, new, rule in fallback:
+        module_ = built_module.get(name, module_)
         base = sources.get(module_, src)
         patched = built.get(name)
         if patched is not None and patched != base:
